@@ -98,6 +98,23 @@ def mk(base):
         functions = FUNCS
         must_reach = ("same",)
 
+        def inputs(self, ctx):
+            inp = base.inputs(self, ctx)
+            sh = getattr(self, "shape", None)
+            if isinstance(self, c03.Decimal) and sh and sh.endswith("dd") and ("E" in sh or "e" in sh):
+                # the value is DUMPED here: repr() of a float is modelled for exponents up to +-29 only
+                # (two-digit exponents beyond that are read, not written, in C03)
+                ctx.assume(inp["lexeme"].cs[-2].z <= ord("2"))
+            return inp
+
+        @property
+        def bounds(self):
+            b = base.bounds.fget(self) if isinstance(getattr(base, "bounds", None), property) else getattr(base, "bounds", "")
+            sh = getattr(self, "shape", None)
+            if isinstance(self, c03.Decimal) and sh and sh.endswith("dd") and ("E" in sh or "e" in sh):
+                b = str(b) + "; exponents up to 29"
+            return b
+
         def prop_fn(self, L, inp):
             if isinstance(self, c03.Blocks):
                 d = ";" if self.delim else ""
